@@ -55,6 +55,10 @@ func validateUnionCases(env *Environment, errorSink *validation.ErrorSink) *Envi
 
 	tagTypeMap := make(map[string]Type)
 
+	// References already checked; the value tells whether it was checked as written
+	// (and not only as part of an instantiated generic definition)
+	seenReferences := make(map[*SimpleType]bool)
+
 	VisitWithContext(env, false, func(self VisitorWithContext[bool], node Node, visitingReference bool) {
 		switch t := node.(type) {
 		case *GeneralizedType:
@@ -206,12 +210,19 @@ func validateUnionCases(env *Environment, errorSink *validation.ErrorSink) *Envi
 			self.VisitChildren(node, visitingReference)
 
 		case *SimpleType:
+			if asWritten, seen := seenReferences[t]; seen && (asWritten || visitingReference) {
+				// A type argument is reached again through the instantiated definition of the
+				// generic type it is given to: check it once (as written, if it is written).
+				return
+			}
+			seenReferences[t] = !visitingReference
+
+			// the type arguments themselves are written here
+			self.VisitChildren(node, visitingReference)
 			if len(t.ResolvedDefinition.GetDefinitionMeta().TypeArguments) > 0 {
 				// Check the referenced type with the type arguments provided
 				self.Visit(t.ResolvedDefinition, true)
 			}
-			// the type arguments themselves are written here
-			self.VisitChildren(node, visitingReference)
 		default:
 			self.VisitChildren(node, visitingReference)
 		}
